@@ -444,7 +444,54 @@ def check_exits(ctx):
                              "a leaving worker decrements the running count", success=lambda e, st: True)
 
 
+def check_work_scheduled(ctx):
+    """Waiters on background_work_finished_signal are only woken by a
+    background call, so every event that can create compaction work (a newly
+    installed version, a memtable handed to the background, a seek-charged
+    file, a manual request) is followed - before the mutex is released - by
+    ldb_maybe_schedule_compaction.  Otherwise a writer that finds too many
+    level-0 files waits for a call nobody scheduled."""
+    sched = lambda e: is_call(e, "ldb_maybe_schedule_compaction")
+    op = ctx.fn("ldb_open", DB)
+    must_pass_before_success(ctx, "T11-work-scheduled", "open", op, lambda e: is_call(e, "ldb_recover"), sched,
+                             "a successful open schedules the compaction its recovered version may need")
+    unl = lambda e: is_call(e, "ldb_mutex_unlock") and argkey(e, 0) == "&db->mutex"
+    from ..rules import never_after
+    never_after(ctx, "T11-work-scheduled", "open:before-unlock", op, unl, sched,
+                "open schedules before it releases the mutex", until=lambda e: is_call(e, "ldb_mutex_lock"))
+    bg = ctx.fn("ldb_background_call", DB)
+    must_pass_before_success(ctx, "T11-work-scheduled", "background-call:re-arm", bg,
+                             _store("background_compaction_scheduled", "db", lambda r: const_val(r) == 0), sched,
+                             "after clearing the scheduled flag the background call re-arms itself if more work is due",
+                             success=lambda e, st: True)
+    mr = ctx.fn("ldb_make_room_for_write", DB)
+    must_pass_before_success(ctx, "T11-work-scheduled", "memtable-switch", mr, _store("imm", "db", lambda r: key(r) == "db->mem"), sched,
+                             "a memtable handed to the background is followed by a scheduling attempt",
+                             success=lambda e, st: True)
+    for fname, charge in (("ldb_get", "ldb_version_update_stats"), ("ldb_record_read_sample", "ldb_version_record_read_sample")):
+        f = ctx.fn(fname, DB)
+        us = [(b, i, e) for (b, i, e) in f.events("call") if is_call(e, charge)]
+        ctx.require(len(us) == 1, "%s: %s call not found" % (fname, charge))
+        must_pass_before_success(ctx, "T11-work-scheduled", fname + ":seek-charge", f, lambda e, c=charge: is_call(e, c), sched,
+                                 "a file charged to its seek limit is followed by a scheduling attempt", success=lambda e, st: True,
+                                 edge_pass=lambda lit, c=charge: _call_false(lit, c))
+    tr = ctx.fn("ldb_test_compact_range", DB)
+    must_pass_before_success(ctx, "T11-work-scheduled", "manual-request", tr, _store("manual_compaction", "db", lambda r: key(r) == "(&manual)"), sched,
+                             "a registered manual compaction is followed by a scheduling attempt", success=lambda e, st: True,
+                             reset=_store("manual_compaction", "db", lambda r: key(r) == "(&manual)"))
+
+
+def _call_false(lit, name):
+    c = strip_casts(lit[0])
+    pol = lit[1]
+    while isinstance(c, dict) and c.get("k") == "un" and c.get("op") == "!":
+        pol = not pol
+        c = strip_casts(c["x"])
+    return isinstance(c, dict) and c.get("k") == "call" and c.get("f") == name and pol is False
+
+
 def check(ctx):
+    check_work_scheduled(ctx)
     la = lockmodel.analysis(ctx)
     check_balance(ctx, la)
     check_order(ctx, la)
